@@ -29,6 +29,15 @@ Theorem C05_recorded_exactly_one_refuted :
 Proof. exact recorded_exactly_one_refuted. Qed.
 Print Assumptions C05_recorded_exactly_one_refuted.
 
+(* A retrier run never loses a record: what had a receipt, a pending row or an invalid row before still has one of
+   the three after (for EVERY (tower, locator), owed or not, every reply sequence given to the retrier). *)
+Theorem C05_no_record_lost_by_retry ops t atts :
+  ops_fresh f_init ops = true ->
+  let s := frun f_init ops in
+  forall k x, recorded (c_db (f_c s)) k x -> recorded (c_db (f_c (fst (fstep s (FRetrierRun t atts))))) k x.
+Proof. exact (no_record_lost_by_retry ops t atts). Qed.
+Print Assumptions C05_no_record_lost_by_retry.
+
 (* non-vacuity: two towers, one accepts, one is down; the retrier delivers after recovery; a duplicate notification
    and a restart in between: both pairs are owed and have exactly one record *)
 Example C05_nonvacuous :
